@@ -322,6 +322,25 @@ var c17Templates = []sim.Template{
 		return []*sim.Action{act("login", 0, v, "ok", "rm", "true"), act("dropsid", 0, -9, ""), act("faultnext", 0, -9, "", "op", op), act("visit", 0, -9, "", "route", "/public"),
 			act("visit", 0, -9, "", "route", "/protected/bare"), act("faultnext", 0, -9, "", "op", pickS(s.R, "Save", "AddRememberToken", "hash")), act("login", 1, v, "ok", "rm", "true")}
 	}},
+	{Name: "genuine-secrets-in-an-ill-formed-json-document", F: func(s *sim.Sim) []*sim.Action {
+		if !s.Cfg.JSON || !s.Cfg.Has("auth") {
+			return nil
+		}
+		v := s.R.Intn(len(s.Accts))
+		sc := []*sim.Action{act("login", 0, v, "ok", "breakjson", "bool"), act("login", 0, v, "ok", "breakjson", "comma")}
+		if s.Cfg.Has("recover") {
+			e := act("recover_end", 1, v, "current", "breakjson", pickS(s.R, "comma", "number"))
+			e.Cls2 = "fresh"
+			sc = append(sc, act("recover_start", 1, v, ""), e)
+		}
+		if s.Cfg.Has("otp") {
+			sc = append(sc, act("login", 0, v, "ok"), act("otp_add", 0, -9, ""), act("otp_login", 1, v, "ok", "breakjson", "bool"))
+		}
+		if s.Cfg.Has("register") {
+			sc = append(sc, act("register", 2, -9, "", "breakjson", "comma"))
+		}
+		return sc
+	}},
 	{Name: "secret-typed-into-the-code-field", F: func(s *sim.Sim) []*sim.Action {
 		if !s.Cfg.Has("auth") || len(s.Cfg.TwoFA) == 0 {
 			return nil
